@@ -7,16 +7,17 @@ Decided: the parity obligations between the hand-duplicated siblings
 from __future__ import annotations
 
 import ast
+import re
 from typing import Dict, List, Optional, Set, Tuple
 
 from .. import flow
 from ..cfg import cfg_of
-from ..model import UNKNOWN, AnchorError, Func, UnknownIdiom, short, unparse, walk_no_nested
+from ..model import UNKNOWN, AnchorError, Func, UnknownIdiom, attr_chain, local_names, short, unparse, walk_no_nested
 from .c08 import check_parse_qs_options
-from .c09_helpers import (ASGI_REQ, HEADER_INPUTS, WSGI_REQ, ReachingDefs, SiteEscape, Unreadable, branch_facts, classes_of,
-                          effective_members, fact_value, factory_bindings, header_getter_kinds, is_public, kind_text, node_of,
+from .c09_helpers import (ASGI_REQ, HEADER_INPUTS, WSGI_REQ, ReachingDefs, SiteEscape, Unreadable, assignments, branch_facts, classes_of,
+                          effective_members, fact_value, factory_bindings, header_getter_kinds, is_public, kind_text, node_defs, node_of,
                           norm_header_key, split_key, table_of, unguarded_keys)
-from .common import is_self_attr, walk_self
+from .common import enclosing_map, is_self_attr, walk_self
 
 # ---------------------------------------------------------------------------
 # frozen tables
@@ -529,94 +530,59 @@ def _raised(p, f: Func):
 # R3 constructor parity
 # ---------------------------------------------------------------------------
 
-_STRIP_KIND: Dict[str, str] = {}
+_STRIP = '<v>[:-1]'
+_OPT_ATOM = ('options.strip_url_path_trailing_slash', True)
+_ENDS_ATOM = ("<v>.endswith('/')", True)
 
 
-def _strip_guard(p, f: Func):
-    cfg = cfg_of(f, p)
-    stores = [n for n in cfg.live_nodes() if n.kind == 'stmt' and isinstance(n.ast, (ast.Assign, ast.AnnAssign))
-              and any(is_self_attr(t, 'path') for t in (n.ast.targets if isinstance(n.ast, ast.Assign) else [n.ast.target]))]
-    if not stores:
-        raise AnchorError('%s: no assignment to self.path' % f.qual)
-    stripped = [n for n in stores if isinstance(n.ast.value, ast.Subscript) and isinstance(n.ast.value.slice, ast.Slice)
-                and n.ast.value.slice.lower is None and short(n.ast.value.slice.upper) == '-1' and isinstance(n.ast.value.value, ast.Name)]
-    if len(stripped) != 1:
-        # some other transformation of the path (rstrip, slicing by a computed
-        # amount, ...): report its shape so that the parity check can compare
-        # the two siblings; the guards are not interpreted
-        other = [n for n in stores if not isinstance(n.ast.value, ast.Name)]
-        if len(other) == 1:
-            names = sorted({x.id for x in walk_self(other[0].ast.value) if isinstance(x, ast.Name)})
-            txt = short(other[0].ast.value, 80)
-            for nm in names:
-                txt = txt.replace(nm, '<path>')
-            _STRIP_KIND[f.qual] = txt
-            return other[0], {'transform:' + txt}
-        raise UnknownIdiom('%s: expected one `self.path = <path>[:-1]`, found %d' % (f.qual, len(stripped)))
-    _STRIP_KIND[f.qual] = '<path>[:-1]'
-    sn = stripped[0]
-    var = sn.ast.value.value.id
-    atoms = set()
-    for test, truth in branch_facts(cfg, sn.id):
-        parts = [(test, truth)]
-        if isinstance(test, ast.BoolOp) and ((isinstance(test.op, ast.And) and truth) or (isinstance(test.op, ast.Or) and not truth)):
-            parts = [(v, truth) for v in test.values]
-        for e, tr in parts:
-            while isinstance(e, ast.UnaryOp) and isinstance(e.op, ast.Not):
-                e, tr = e.operand, not tr
-            names = {x.id for x in walk_self(e) if isinstance(x, ast.Name)}
-            if isinstance(e, ast.Attribute) and e.attr == 'strip_url_path_trailing_slash' and tr:
-                atoms.add('option')
-            elif (isinstance(e, ast.Call) and isinstance(e.func, ast.Attribute) and e.func.attr == 'endswith' and isinstance(e.func.value, ast.Name)
-                  and e.func.value.id == var and len(e.args) == 1 and isinstance(e.args[0], ast.Constant) and e.args[0].value == '/' and tr):
-                atoms.add('endswith-slash')
-            elif isinstance(e, ast.Compare) and len(e.ops) == 1 and var in names:
-                l, op, r = e.left, e.ops[0], e.comparators[0]
-                txt = None
-                if isinstance(l, ast.Call) and isinstance(l.func, ast.Name) and l.func.id == 'len' and isinstance(r, ast.Constant):
-                    if (isinstance(op, ast.NotEq) and r.value == 1 and tr) or (isinstance(op, ast.Eq) and r.value == 1 and not tr) \
-                            or (isinstance(op, ast.Gt) and r.value == 1 and tr) or (isinstance(op, ast.GtE) and r.value == 2 and tr) \
-                            or (isinstance(op, ast.LtE) and r.value == 1 and not tr) or (isinstance(op, ast.Lt) and r.value == 2 and not tr):
-                        txt = 'longer-than-1'
-                if isinstance(l, ast.Name) and isinstance(r, ast.Constant) and r.value == '/' and (
-                        (isinstance(op, ast.NotEq) and tr) or (isinstance(op, ast.Eq) and not tr)):
-                    txt = 'longer-than-1'  # given endswith('/'), path != '/' <=> len(path) > 1
-                if txt is None:
-                    raise UnknownIdiom('%s: guard %s of the trailing-slash strip' % (f.qual, short(e)))
-                atoms.add(txt)
-            elif var in names:
-                raise UnknownIdiom('%s: guard %s of the trailing-slash strip' % (f.qual, short(e)))
-    return sn, atoms
+def _strip_step(p, f: Func):
+    """(guard atoms, transformation, statement) of the one rebinding of the path
+    that is the trailing-slash strip: read off the path pipeline (R13), so the
+    strip may be written on the local or on self.path, with nested or joined
+    guards.  A rebinding under the option that is not `[:-1]` is returned as it
+    is, so that the parity check can compare the two siblings."""
+    pl = _Pipeline(p, f, 'path')
+    cands = [s for s in pl.steps if s[1] == _STRIP or _OPT_ATOM in s[0]]
+    if len(cands) != 1:
+        raise UnknownIdiom('%s: expected one rebinding of the path that strips a trailing slash (`<path>[:-1]`, or any rebinding under '
+                           'options.strip_url_path_trailing_slash), found %d' % (f.qual, len(cands)))
+    return cands[0]
 
 
 def r3_constructor_parity(run):
     p = run.project
     fw, fa = p.func(WSGI_REQ + '.__init__'), p.func(ASGI_REQ + '.__init__')
     res = {}
-    _STRIP_KIND.clear()
     pre = {}
     for f in (fw, fa):
-        pre[f.qual] = _strip_guard(p, f)
-    kinds = dict(_STRIP_KIND)
+        pre[f.qual] = _strip_step(p, f)
+    kinds = {q: st[1].replace(V, '<path>') for q, st in pre.items()}
     if kinds.get(fw.qual) != kinds.get(fa.qual):
+        if not (pre[fw.qual][3] and pre[fa.qual][3]):
+            raise UnknownIdiom('the constructors rebind the path under strip_url_path_trailing_slash as %s and %s; the rule cannot decide whether '
+                               'these are the same function' % (kinds.get(fw.qual), kinds.get(fa.qual)))
         odd = fa if kinds.get(fa.qual) != '<path>[:-1]' else fw
         run.fail('the two constructors transform the request path differently under strip_url_path_trailing_slash '
                  '(%s: %s; %s: %s): the same request is routed differently by the two stacks' % (
-                     fw.qual, kinds.get(fw.qual), fa.qual, kinds.get(fa.qual)), odd, pre[odd.qual][0].ast,
+                     fw.qual, kinds.get(fw.qual), fa.qual, kinds.get(fa.qual)), odd, pre[odd.qual][2],
                  runtime_witness="GET /items// with the option on: one stack sees '/items/', the other '/items'")
         return
     if kinds.get(fw.qual) != '<path>[:-1]':
         raise UnknownIdiom('both constructors transform the path as %s; the strip guard rule does not understand that shape' % kinds.get(fw.qual))
     for f in (fw, fa):
         run.use_cfg(cfg_of(f, p))
-        sn, atoms = pre[f.qual]
+        atoms, _t, st, _simple = pre[f.qual]
         res[f.qual] = atoms
-        run.check({'option', 'endswith-slash'} <= atoms,
-                  '%s strips one trailing slash only when options.strip_url_path_trailing_slash is set and the path ends with "/"' % f.qual, f, sn.ast,
-                  witness=['guards established: %s' % sorted(atoms)],
+        holds = {_OPT_ATOM, _ENDS_ATOM} <= atoms
+        if not holds and any(V in a and not _KNOWN_ATOM.fullmatch(a) for a, _tr in atoms):
+            raise UnknownIdiom('%s: guard {%s} of the trailing-slash strip' % (f.qual, _guard_text(atoms)))
+        run.check(holds,
+                  '%s strips one trailing slash only when options.strip_url_path_trailing_slash is set and the path ends with "/"' % f.qual, f, st,
+                  witness=['guards established: %s' % (_guard_text(atoms).replace(V, '<path>') or 'none')],
                   runtime_witness='a path is shortened although the option is off (or does not end with a slash)')
-    run.check(res[fw.qual] == res[fa.qual], 'both constructors guard the trailing-slash strip with the same conditions', fa, 'strip-guard: %s vs %s' % (fw.qual, fa.qual),
-              where=fa.loc(), witness=['%s: %s' % (k, sorted(v)) for k, v in res.items()],
+    differ = _guards_differ('trailing-slash strip', res[fw.qual], _STRIP, res[fa.qual], _STRIP)
+    run.check(not differ, 'both constructors guard the trailing-slash strip with the same conditions', fa, 'strip-guard: %s vs %s' % (fw.qual, fa.qual),
+              where=fa.loc(), witness=['%s: %s' % (k, _guard_text(v).replace(V, '<path>')) for k, v in res.items()],
               runtime_witness='the path "/" (or "//") is routed differently by the two stacks when strip_url_path_trailing_slash is on')
     check_parse_qs_options(run, p)
     # content_type from the same header
@@ -1075,6 +1041,437 @@ def r9_driver_path_decoding(run):
               seen['falcon.testing.helpers.create_scope'][0], witness=['%s: unquote_plus=%r' % (k, v[1]) for k, v in seen.items()])
 
 
+# ---------------------------------------------------------------------------
+# R13 the constructors rebind the request's raw inputs (path, query string)
+# through the same (guard, transformation) pipeline
+# ---------------------------------------------------------------------------
+
+# (table kind, key) -> stack-neutral name of the raw input
+RAW_INPUTS: Dict[Tuple[str, object], str] = {
+    ('environ', 'PATH_INFO'): 'path', ('scope', 'path'): 'path',
+    ('environ', 'SCRIPT_NAME'): 'root_path', ('scope', 'root_path'): 'root_path',
+    ('environ', 'QUERY_STRING'): 'query_string', ('scope', 'query_string'): 'query_string',
+}
+
+V = '<v>'
+
+# methods of str / bytes that the normal form may contain (a call of anything
+# else - a helper, a module function - is not read: unknown idiom)
+_VALUE_METHODS = frozenset((
+    'encode', 'decode', 'isascii', 'startswith', 'endswith', 'strip', 'lstrip', 'rstrip', 'lower', 'upper', 'replace',
+    'removeprefix', 'removesuffix', 'partition', 'rpartition', 'split', 'rsplit', 'join', 'find', 'rfind', 'index', 'count',
+    'casefold', 'title', 'isdigit', 'format', 'translate', 'expandtabs', 'zfill', 'splitlines'))
+
+_BINOPS = {ast.Add: '+', ast.Sub: '-', ast.Mult: '*', ast.Mod: '%', ast.FloorDiv: '//'}
+_CMPOPS = {ast.Eq: '==', ast.NotEq: '!=', ast.Lt: '<', ast.LtE: '<=', ast.Gt: '>', ast.GtE: '>=', ast.In: 'in', ast.NotIn: 'not in',
+           ast.Is: 'is', ast.IsNot: 'is not'}
+_CMPMIRROR = {'==': '==', '!=': '!=', '<': '>', '>': '<', '<=': '>=', '>=': '<='}
+_CMPNEG = {'==': '!=', '!=': '==', '<': '>=', '>=': '<', '>': '<=', '<=': '>', 'in': 'not in', 'not in': 'in', 'is': 'is not', 'is not': 'is'}
+
+
+def _codec(name):
+    import codecs
+    try:
+        return codecs.lookup(name).name
+    except LookupError:
+        return name
+
+
+def _latin1_redecode(g, t):
+    return t == "%s.encode('iso8859-1').decode('utf-8', 'replace')" % V and g <= {('%s.isascii()' % V, False)}
+
+
+def _missing_key_blank(g, t):
+    return t == "''" and g == {('except KeyError', True)}
+
+
+def _bytes_decode(g, t):
+    return t.startswith(V + '.decode(') and t.endswith(')') and t.count('(') == 1 and not g
+
+
+# documented asymmetries of the pipelines: attribute -> [(stack, predicate(guard, transformation), reason)]
+PIPELINE_TABLED = {
+    'path': [('WSGI', _latin1_redecode, 'PEP 3333 tunnels the path bytes through ISO-8859-1, so WSGI re-decodes them as UTF-8; '
+                                        'the ASGI server hands over the already decoded str')],
+    'query_string': [('WSGI', _missing_key_blank, 'PEP 3333 lets the server omit QUERY_STRING; the ASGI scope key is mandatory'),
+                     ('ASGI', _bytes_decode, 'the ASGI scope carries the query string as bytes, the WSGI environ as str '
+                                             '(the strictness of the decoding is R2(c): F8)')],
+}
+
+
+def _facts_with_ids(cfg, nid):
+    """branch_facts, with the id of the test node (names in a test are resolved where the test is evaluated)."""
+    out = []
+    for t in cfg.live_nodes():
+        if t.kind != 'test' or t.id == nid:
+            continue
+        for lab, truth in (('T', True), ('F', False)):
+            edges = flow.edges_out(cfg, t.id, lab)
+            if edges and nid not in flow.reachable(cfg, [cfg.entry], avoid_edges=edges):
+                out.append((t.id, t.ast, truth))
+    return out
+
+
+class _Pipeline:
+    """Every rebinding of the value that ends up in self.<attr>, between the read
+    of the raw input and the store, as [(guard atoms, transformation text, stmt)]."""
+
+    def __init__(self, p, f: Func, attr: str):
+        self.p, self.f, self.attr = p, f, attr
+        self.cfg = cfg_of(f, p)
+        self.rd = ReachingDefs(self.cfg)
+        self.parent = None
+        self.raw_used: Set[str] = set()
+        self.vars = self._pipeline_vars()
+        self.steps = self._steps()
+
+    # -- raw inputs ---------------------------------------------------------
+    def _raw_of(self, e) -> Optional[str]:
+        tbl = key = None
+        if isinstance(e, ast.Subscript) and isinstance(e.ctx, ast.Load):
+            tbl, key = table_of(self.f, e.value), e.slice
+        elif isinstance(e, ast.Call) and isinstance(e.func, ast.Attribute) and e.func.attr == 'get' and e.args:
+            tbl, key = table_of(self.f, e.func.value), e.args[0]
+        if tbl is None or tbl[0] not in ('environ', 'scope'):
+            return None
+        if not isinstance(key, ast.Constant):
+            raise UnknownIdiom('%s: computed %s key in the %s pipeline: %s' % (self.f.qual, tbl[0], self.attr, short(e, 60)))
+        return RAW_INPUTS.get((tbl[0], key.value), '%s:%s' % (tbl[0], key.value))
+
+    def _is_own_raw(self, e) -> bool:
+        try:
+            return self._raw_of(e) == self.attr
+        except UnknownIdiom:
+            return False
+
+    def _is_store_target(self, t) -> bool:
+        return is_self_attr(t, self.attr)
+
+    def _pipeline_vars(self) -> Set[str]:
+        asg = assignments(self.f)
+        derived: Set[str] = set()
+        changed = True
+        while changed:
+            changed = False
+            for name, vals in asg.items():
+                if name in derived:
+                    continue
+                for v in vals:
+                    if v is not None and any(self._is_own_raw(x) or (isinstance(x, ast.Name) and x.id in derived)
+                                             or (isinstance(x, ast.Attribute) and isinstance(x.ctx, ast.Load) and is_self_attr(x, self.attr))
+                                             for x in walk_self(v)):
+                        derived.add(name)
+                        changed = True
+                        break
+        # backward closure from the stores into self.<attr>
+        stores = []
+        for n in walk_no_nested(self.f.node):
+            if isinstance(n, (ast.Assign, ast.AnnAssign, ast.AugAssign)) and getattr(n, 'value', None) is not None:
+                tg = n.targets if isinstance(n, ast.Assign) else [n.target]
+                if any(self._is_store_target(t) for t in tg):
+                    stores.append(n)
+        if not stores:
+            raise AnchorError('%s: no assignment to self.%s' % (self.f.qual, self.attr))
+        back: Set[str] = set()
+        work = [x.id for s in stores for x in walk_self(s.value) if isinstance(x, ast.Name)]
+        while work:
+            nm = work.pop()
+            if nm in back or nm not in derived:
+                continue
+            back.add(nm)
+            for v in asg.get(nm, ()):
+                if v is not None:
+                    work.extend(x.id for x in walk_self(v) if isinstance(x, ast.Name))
+        return back
+
+    # -- normal form --------------------------------------------------------
+    def norm(self, e, nid, depth=0) -> str:
+        if depth > 8:
+            raise UnknownIdiom('%s: the %s pipeline is too deeply nested to read' % (self.f.qual, self.attr))
+        N = lambda x: self.norm(x, nid, depth + 1)  # noqa: E731
+        if isinstance(e, ast.Constant):
+            return repr(e.value)
+        if isinstance(e, ast.Name):
+            if e.id in self.vars:
+                return V
+            ds = self.rd.at(nid, e.id)
+            if len(ds) == 1 and ds[0].how == 'assign' and ds[0].value is not None:
+                return self.norm(ds[0].value, _stmt_node(self.cfg, ds[0].stmt), depth + 1)
+            raise UnknownIdiom('%s: local %r used in the %s pipeline has no single plain definition' % (self.f.qual, e.id, self.attr))
+        raw = self._raw_of(e) if isinstance(e, (ast.Subscript, ast.Call)) else None
+        if raw is not None:
+            self.raw_used.add(raw)
+            return V if raw == self.attr else '<raw:%s>' % raw
+        if isinstance(e, ast.Attribute):
+            if is_self_attr(e, self.attr):
+                return V
+            ch = attr_chain(e)
+            if ch is not None and ch[0] == 'self':
+                return '.'.join(ch[1:]) if len(ch) == 3 and ch[1] == 'options' else '.'.join(ch)
+            raise UnknownIdiom('%s: attribute %s in the %s pipeline' % (self.f.qual, short(e, 60), self.attr))
+        if isinstance(e, ast.Subscript):
+            s = e.slice
+            if isinstance(s, ast.Slice):
+                st = ':'.join('' if x is None else N(x) for x in (s.lower, s.upper)) + ('' if s.step is None else ':' + N(s.step))
+            else:
+                st = N(s)
+            return '%s[%s]' % (N(e.value), st)
+        if isinstance(e, ast.Call) and not any(k.arg is None for k in e.keywords) and not any(isinstance(a, ast.Starred) for a in e.args):
+            if isinstance(e.func, ast.Name) and e.func.id == 'len' and e.func.id not in local_names(self.f) and len(e.args) == 1 and not e.keywords:
+                return '%s(%s)' % (e.func.id, N(e.args[0]))
+            if isinstance(e.func, ast.Attribute) and e.func.attr in _VALUE_METHODS:
+                recv = N(e.func.value)
+                args = [N(a) for a in e.args] + ['%s=%s' % (k.arg, N(k.value)) for k in sorted(e.keywords, key=lambda k: k.arg)]
+                if e.func.attr in ('encode', 'decode') and e.args and isinstance(e.args[0], ast.Constant) and isinstance(e.args[0].value, str):
+                    args[0] = repr(_codec(e.args[0].value))
+                return '%s.%s(%s)' % (recv, e.func.attr, ', '.join(args))
+            raise UnknownIdiom('%s: call %s in the %s pipeline is not a str/bytes method (a helper is not looked through)' % (
+                self.f.qual, short(e, 60), self.attr))
+        if isinstance(e, ast.BoolOp):
+            return '(%s)' % (' and ' if isinstance(e.op, ast.And) else ' or ').join(N(v) for v in e.values)
+        if isinstance(e, ast.UnaryOp) and isinstance(e.op, ast.Not):
+            return 'not %s' % N(e.operand)
+        if isinstance(e, ast.UnaryOp) and isinstance(e.op, ast.USub):
+            return '-%s' % N(e.operand)
+        if isinstance(e, ast.BinOp) and type(e.op) in _BINOPS:
+            return '(%s %s %s)' % (N(e.left), _BINOPS[type(e.op)], N(e.right))
+        if isinstance(e, ast.Compare) and all(type(o) in _CMPOPS for o in e.ops):
+            out = N(e.left)
+            for o, c in zip(e.ops, e.comparators):
+                out += ' %s %s' % (_CMPOPS[type(o)], N(c))
+            return out
+        if isinstance(e, ast.IfExp):
+            return '(%s if %s else %s)' % (N(e.body), N(e.test), N(e.orelse))
+        raise UnknownIdiom('%s: expression %s in the %s pipeline' % (self.f.qual, short(e, 60), self.attr))
+
+    def _simple(self, e) -> bool:
+        """Canonical transformation: the value, constants, `or`, str methods with
+        constant arguments, slices with constant bounds.  Two of these that differ
+        textually are different functions of the value."""
+        if isinstance(e, ast.Constant):
+            return True
+        if isinstance(e, ast.Name):
+            return e.id in self.vars
+        if isinstance(e, ast.Attribute):
+            return is_self_attr(e, self.attr)
+        if isinstance(e, (ast.Subscript, ast.Call)) and self._is_own_raw(e):
+            return True
+        if isinstance(e, ast.BoolOp):
+            return all(self._simple(v) for v in e.values)
+        if isinstance(e, ast.UnaryOp) and isinstance(e.op, ast.USub):
+            return isinstance(e.operand, ast.Constant)
+        if isinstance(e, ast.Call) and isinstance(e.func, ast.Attribute):
+            return self._simple(e.func.value) and all(isinstance(a, ast.Constant) for a in e.args) and all(isinstance(k.value, ast.Constant) for k in e.keywords)
+        if isinstance(e, ast.Subscript):
+            sl = e.slice
+            parts = [sl.lower, sl.upper, sl.step] if isinstance(sl, ast.Slice) else [sl]
+            return self._simple(e.value) and all(x is None or isinstance(x, ast.Constant) or (
+                isinstance(x, ast.UnaryOp) and isinstance(x.op, ast.USub) and isinstance(x.operand, ast.Constant)) for x in parts)
+        return False
+
+    def _atoms(self, e, truth, nid) -> Set[Tuple[str, bool]]:
+        while isinstance(e, ast.UnaryOp) and isinstance(e.op, ast.Not):
+            e, truth = e.operand, not truth
+        if isinstance(e, ast.BoolOp) and ((isinstance(e.op, ast.And) and truth) or (isinstance(e.op, ast.Or) and not truth)):
+            out: Set[Tuple[str, bool]] = set()
+            for v in e.values:
+                out |= self._atoms(v, truth, nid)
+            return out
+        if isinstance(e, ast.Compare) and len(e.ops) == 1 and type(e.ops[0]) in _CMPOPS:
+            l, op, r = self.norm(e.left, nid), _CMPOPS[type(e.ops[0])], self.norm(e.comparators[0], nid)
+            if not truth:
+                op, truth = _CMPNEG[op], True
+            if isinstance(e.left, ast.Constant) and not isinstance(e.comparators[0], ast.Constant) and op in _CMPMIRROR:
+                l, op, r = r, _CMPMIRROR[op], l  # constant on the right
+            # the value is never empty once `or '/'` was applied: len != 1, > 1, >= 2 say the same
+            if l.startswith('len(') and (op, r) in (('!=', '1'), ('>', '1'), ('>=', '2')):
+                op, r = '>', '1'
+            return {('%s %s %s' % (l, op, r), True)}
+        return {(self.norm(e, nid), truth)}
+
+    def _guard(self, nid, stmt) -> frozenset:
+        atoms: Set[Tuple[str, bool]] = set()
+        for tid, test, truth in _facts_with_ids(self.cfg, nid):
+            atoms |= self._atoms(test, truth, tid)
+        if self.parent is None:
+            self.parent = enclosing_map(self.f.node)
+        cur = self.parent.get(id(stmt))
+        while cur is not None and cur is not self.f.node:
+            if isinstance(cur, ast.ExceptHandler):
+                atoms.add(('except %s' % (unparse(cur.type) if cur.type is not None else '<all>'), True))
+            cur = self.parent.get(id(cur))
+        # given endswith('/'):  v != '/'  <=>  len(v) > 1
+        if ("%s.endswith('/')" % V, True) in atoms and ("%s != '/'" % V, True) in atoms:
+            atoms.discard(("%s != '/'" % V, True))
+            atoms.add(('len(%s) > 1' % V, True))
+        return frozenset(atoms)
+
+    def _steps(self):
+        out = []
+        for n in self.cfg.live_nodes():
+            if n.copy:
+                continue
+            for d in node_defs(n):
+                if d.name in self.vars and not (n.kind == 'stmt' and isinstance(n.ast, (ast.Assign, ast.AnnAssign, ast.AugAssign)) and d.how in ('assign', 'aug')):
+                    raise UnknownIdiom('%s: %r (part of the %s pipeline) is bound by a %s' % (self.f.qual, d.name, self.attr, d.how))
+            if n.kind != 'stmt' or not isinstance(n.ast, (ast.Assign, ast.AnnAssign, ast.AugAssign)) or getattr(n.ast, 'value', None) is None:
+                continue
+            a = n.ast
+            tg = a.targets if isinstance(a, ast.Assign) else [a.target]
+            hit = False
+            for t in tg:
+                if isinstance(t, (ast.Tuple, ast.List)):
+                    if any((isinstance(x, ast.Name) and x.id in self.vars) or self._is_store_target(x) for x in walk_self(t)):
+                        raise UnknownIdiom('%s: tuple assignment in the %s pipeline: %s' % (self.f.qual, self.attr, short(a, 60)))
+                elif (isinstance(t, ast.Name) and t.id in self.vars) or self._is_store_target(t):
+                    hit = True
+            if not hit:
+                continue
+            if isinstance(a, ast.AugAssign):
+                if type(a.op) not in _BINOPS:
+                    raise UnknownIdiom('%s: %s in the %s pipeline' % (self.f.qual, short(a, 60), self.attr))
+                t = '(%s %s %s)' % (V, _BINOPS[type(a.op)], self.norm(a.value, n.id))
+            else:
+                t = self.norm(a.value, n.id)
+            if t == V:
+                continue  # a plain copy (raw read, rename, the store itself)
+            out.append((self._guard(n.id, a), t, a, not isinstance(a, ast.AugAssign) and self._simple(a.value)))
+        for x in walk_no_nested(self.f.node):
+            if isinstance(x, ast.NamedExpr) and x.target.id in self.vars:
+                raise UnknownIdiom('%s: %r (part of the %s pipeline) is bound by a walrus' % (self.f.qual, x.target.id, self.attr))
+        out.sort(key=lambda s: (s[2].lineno, s[2].col_offset))
+        return out
+
+
+def _guard_text(g) -> str:
+    return ' and '.join(sorted(('' if tr else 'not ') + a for a, tr in g))
+
+
+def _step_text(g, t) -> str:
+    gs = _guard_text(g)
+    return ('if %s: ' % gs if gs else '') + '%s := %s' % (V, t)
+
+
+_SYMBOL = re.compile(r"<v>|<raw:[^>]+>|options\.\w+|self(?:\.\w+)+|except [\w.]+")
+# guard atoms whose normal form is canonical: two of them that differ textually differ in meaning
+_KNOWN_ATOM = re.compile(r"len\(<v>\) (?:==|!=|<|<=|>|>=) \d+|<v>\.(?:endswith|startswith)\('[^']*'\)|options\.\w+|self(?:\.\w+)+|<v>\.isascii\(\)|except [\w.]+")
+
+
+def _symbols(texts) -> Set[str]:
+    out: Set[str] = set()
+    for t in texts:
+        out |= set(_SYMBOL.findall(t))
+    return out
+
+
+def _guards_differ(what: str, g1, t1, g2, t2) -> bool:
+    """False: the two guards are the same set of atoms.  True: they differ in
+    meaning - an atom on one side consults a raw input / option / attribute the
+    other side never mentions, or all the atoms that differ are in canonical
+    form.  Anything else (two spellings that may well be equivalent) is an
+    unknown idiom, not a verdict."""
+    a, b = g1 - g2, g2 - g1
+    if not a and not b:
+        return False
+    s1, s2 = _symbols([x for x, _ in g1] + [t1]), _symbols([x for x, _ in g2] + [t2])
+    if any(_symbols([x]) - s2 for x, _ in a) or any(_symbols([x]) - s1 for x, _ in b):
+        return True
+    if all(_KNOWN_ATOM.fullmatch(x) for x, _ in a | b):
+        return True
+    raise UnknownIdiom('%s: the guards {%s} and {%s} differ in atoms whose equivalence the rule cannot decide' % (what, _guard_text(g1), _guard_text(g2)))
+
+
+def r13_ctor_value_pipelines(run):
+    """Between the raw read (env['PATH_INFO'] / scope['path'], QUERY_STRING /
+    query_string) and the store into self.path / self.query_string, the two
+    constructors apply the same sequence of (guard, transformation) pairs, up
+    to the tabled asymmetries.
+    W: ASGI alone drops a leading root_path from the path: an app mounted under
+    /api serves /api/items as /items on ASGI and as /api/items on WSGI."""
+    p = run.project
+    fw, fa = p.func(WSGI_REQ + '.__init__'), p.func(ASGI_REQ + '.__init__')
+    run.use(fw)
+    run.use(fa)
+    for attr in ('path', 'query_string'):
+        pipes = {'WSGI': _Pipeline(p, fw, attr), 'ASGI': _Pipeline(p, fa, attr)}
+        for pl in pipes.values():
+            if not _reads_own_raw(pl):
+                raise AnchorError('%s: the raw %s input is not read on the way to self.%s' % (pl.f.qual, attr, attr))
+        rest = {}
+        for side, pl in pipes.items():
+            keep = []
+            for g, t, st, simple in pl.steps:
+                why = next((r for s_, pred, r in PIPELINE_TABLED.get(attr, ()) if s_ == side and pred(g, t)), None)
+                if why is not None:
+                    run.ok('self.%s, %s only: `%s` is a documented asymmetry (%s)' % (attr, side, _step_text(g, t), why), pl.f.loc(st), st)
+                else:
+                    keep.append((g, t, st, simple))
+            rest[side] = keep
+        wit = ['%s %s: %s' % (side, pipes[side].f.qual, ' ; '.join(_step_text(g, t) for g, t, _s, _x in pipes[side].steps) or '(plain copy)')
+               for side in ('WSGI', 'ASGI')]
+        wit.append('raw inputs consulted for self.%s: WSGI %s, ASGI %s' % (attr, sorted(pipes['WSGI'].raw_used), sorted(pipes['ASGI'].raw_used)))
+        rt = ('a request for which the one-sided guard holds (e.g. an app mounted under /api asked for /api/items): '
+              'req.%s, hence routing and the URL parts, differ between WSGI and ASGI' % attr)
+        # exact matches first
+        un = {'WSGI': list(rest['WSGI']), 'ASGI': []}
+        for step in rest['ASGI']:
+            m = next((x for x in un['WSGI'] if x[0] == step[0] and x[1] == step[1]), None)
+            if m is not None:
+                un['WSGI'].remove(m)
+            else:
+                un['ASGI'].append(step)
+        bad = False
+        for side, other in (('ASGI', 'WSGI'), ('WSGI', 'ASGI')):
+            for step in list(un[side]):
+                if step not in un[side]:
+                    continue
+                g, t, st, simple = step
+                un[side].remove(step)
+                f = pipes[side].f
+                same_t = next((x for x in un[other] if x[1] == t), None)
+                same_g = next((x for x in un[other] if x[0] == g), None)
+                if same_t is not None:
+                    un[other].remove(same_t)
+                    if not _guards_differ('self.%s, `%s`' % (attr, t), g, t, same_t[0], same_t[1]):
+                        raise AnchorError('internal: unmatched steps with equal guards')
+                    what = ('the %s constructor applies `%s` to the request %s under the guard {%s}, the %s constructor under {%s}'
+                            % (side, t, attr, _guard_text(g) or 'always', other, _guard_text(same_t[0]) or 'always'))
+                elif same_g is not None:
+                    un[other].remove(same_g)
+                    if not (simple and same_g[3]):
+                        raise UnknownIdiom('self.%s: under the guard {%s} the %s constructor applies `%s`, the %s constructor `%s`; '
+                                           'the rule cannot decide whether they are the same function' % (attr, _guard_text(g) or 'always', side, t, other, same_g[1]))
+                    what = ('under the guard {%s} the %s constructor rebinds the request %s with `%s`, the %s constructor with `%s`'
+                            % (_guard_text(g) or 'always', side, attr, t, other, same_g[1]))
+                else:
+                    extra = sorted(pipes[side].raw_used - pipes[other].raw_used)
+                    what = ('only the %s constructor rebinds the request %s with `%s`%s: the same request has a different req.%s on the two stacks'
+                            % (side, attr, _step_text(g, t), (' (it consults the raw input %s, which the %s constructor does not)' % (', '.join(extra), other)) if extra else '', attr))
+                bad = True
+                run.fail(what, f, st, where=f.loc(st), witness=wit, runtime_witness=rt)
+        if bad:
+            continue
+        ow, oa = [(g, t) for g, t, _s, _x in rest['WSGI']], [(g, t) for g, t, _s, _x in rest['ASGI']]
+        run.check(ow == oa, 'both constructors apply the rebindings of the request %s in the same order' % attr, fa, 'pipeline-order(%s): %s vs %s' % (attr, fw.qual, fa.qual),
+                  where=fa.loc(), witness=wit)
+        for g, t, st, _x in rest['ASGI']:
+            run.ok('both constructors rebind the request %s with `%s`' % (attr, _step_text(g, t)), fa.loc(st), st)
+        run.check(pipes['WSGI'].raw_used == pipes['ASGI'].raw_used, 'both constructors consult the same raw inputs on the way to self.%s' % attr, fa,
+                  'raw-inputs(%s): %s vs %s' % (attr, fw.qual, fa.qual), where=fa.loc(), witness=wit)
+
+
+def _reads_own_raw(pl: '_Pipeline') -> bool:
+    """The raw input of the pipeline is read by the constructor and flows into the store."""
+    for n in walk_no_nested(pl.f.node):
+        if isinstance(n, (ast.Assign, ast.AnnAssign)) and n.value is not None:
+            tg = n.targets if isinstance(n, ast.Assign) else [n.target]
+            if any(pl._is_store_target(t) for t in tg):
+                for x in walk_self(n.value):
+                    if pl._is_own_raw(x) or (isinstance(x, ast.Name) and x.id in pl.vars):
+                        return True
+    return False
+
+
 def check(run):
     run.assume('whole-behaviour equality is not decided; the parity obligations between the hand-duplicated siblings are')
     run.assume('R4 (dispatch parity) = C03 R1 + C04 R3 + C05 R3/R4: decided by those checks, not re-evaluated here')
@@ -1093,7 +1490,11 @@ def check(run):
 
     run.rule('R10', _c05.r4_bodiless_typeless, 'both apps use the same bodiless/typeless status sets and branches (shared with C05 R4)', floor=26)
     run.rule('R11', _c13.r1_siblings, 'the sync and async multipart parsers are statement-for-statement siblings (shared with C13 R1)', floor=3)
+    from . import c09 as _c09
+
+    run.rule('R12', _c09.r2_memo, 'memo discipline of the request accessors: a per-request value cached by one accessor is what its siblings read (shared with C09 R2)', floor=50)
     run.rule('R9', r9_driver_path_decoding, 'both test drivers percent-decode the path identically (no plus-to-space)', floor=3)
+    run.rule('R13', r13_ctor_value_pipelines, 'constructor pipelines raw input -> self.path / self.query_string: same (guard, transformation) pairs on both stacks', floor=4)
     run.rule('R8', r8_ctor_definite_assignment, 'per-request attributes bound on every constructor path or immutable class default', floor=2)
     run.rule('R7', r7_render_sibling_stores, 'render siblings perform the same stores on the response', floor=2)
     run.rule('R6', r6_access_route_tail, 'access_route: peer appended under the same condition in both stacks', floor=1)
